@@ -363,9 +363,12 @@ class StmtMixin:
         if isinstance(it, StrOp) and it.op == "enumerate":
             e, d = self.sym_elem(it.args[0], site)
             start = it.args[1] if len(it.args) > 1 else None
-            if start is not None and not (isinstance(start, Cst) and isinstance(start.value, int)):
-                raise AnalysisError(f"enumerate() with a non-constant start at {site}")
-            idx = Sym({f"index({d})": 1}, start.value if start is not None else 0)
+            ssym = self.as_sym(start) if start is not None else Sym({}, 0)
+            if ssym is None:
+                raise AnalysisError(f"enumerate() with a start that is not a linear form at {site}")
+            terms = dict(ssym.terms)
+            terms[f"index({d})"] = terms.get(f"index({d})", 0) + 1
+            idx = Sym(terms, ssym.const)
             return PTuple([idx, e]), d
         if isinstance(it, StrOp) and it.op in ("reversed", "sorted"):
             e, d = self.sym_elem(it.args[0], site)
